@@ -143,6 +143,61 @@ theorem C18_key_boundary :
   have := congrArg List.head? h
   simp [tars2endpoint, endpoint2tars, finish, Endpoint.string, sUdp, sTcp, sSsl] at this
 
+/-! ## Clause 4 at the level of the endpoint manager's key-indexed tables
+
+The manager indexes its adapters (`epList`) and its probe candidates (`checkAdapterList`) by the
+endpoint key and compares the cached keys with those of the registry's inactive list on every
+refresh.  `keyOfRegistry` / `keyOfString` are the only two ways a key may be made. -/
+
+/-- key of an endpoint as the registry describes it: `endpoint.Tars2endpoint(f).Key` -/
+def keyOfRegistry (f : EndpointF) : Bytes := (tars2endpoint f).key
+
+/-- key of an endpoint given by an address string: `endpoint.Parse(s).Key` (`none`: panic) -/
+def keyOfString (var : Variant) (s : Bytes) : Option Bytes :=
+  match parse var s with
+  | .ok e => some e.key
+  | .panic _ => none
+
+/-- registry and string descriptions of the same endpoint agree on the key (restatement of
+    `C18_key` in terms of the two key functions) -/
+theorem C18_keyOf_agree (var : Variant) (s : Bytes) (p : Proto) (hp : s.take 3 = p.bytes) :
+    ∃ e, parse var s = .ok e ∧ keyOfString var s = some e.key ∧
+      ∀ f : EndpointF, f.host = e.host → f.port = e.port → f.timeout = e.timeout → f.istcp = e.istcp →
+        keyOfRegistry f = e.key := by
+  obtain ⟨e, he, hk⟩ := C18_key var s p hp
+  exact ⟨e, he, by simp [keyOfString, he], hk⟩
+
+/-- probe hand-out: `checkStatus` stores the candidate under `Tars2endpoint(ef).Key`; the adapter
+    remembers `ef` itself or `Endpoint2tars(Tars2endpoint(ef))`, and `SelectAdapterProxy` deletes
+    under `Tars2endpoint(*adp.GetPoint()).Key` — the same key, for every registry entry -/
+theorem C18_manager_probe_key (f : EndpointF) :
+    keyOfRegistry (endpoint2tars (tars2endpoint f)) = keyOfRegistry f := rfl
+
+/-- direct proxies: the adapter of an endpoint parsed from an address string that begins with
+    tcp/udp/ssl remembers `Endpoint2tars(Parse(s))`; its key is the key of the string -/
+theorem C18_manager_direct_key (var : Variant) (s : Bytes) (p : Proto) (hp : s.take 3 = p.bytes) :
+    ∃ e, parse var s = .ok e ∧ keyOfRegistry (endpoint2tars e) = e.key := by
+  obtain ⟨e, he, hk⟩ := C18_key_roundtrip var s p hp
+  exact ⟨e, he, hk⟩
+
+/-- a key made any other way need not agree: the key of an Endpoint assembled with the protocol
+    word `udp` for every transport kind other than 1 (what a "tcp only if Istcp == 1" shortcut
+    does) differs from the registry key of an ssl endpoint -/
+theorem C18_counterexample_local_key :
+    let f : EndpointF := { host := [B 97], port := 1, timeout := 2, istcp := 2, grid := 0, qos := 0,
+                           weight := 0, weightType := 0, authType := 0, setId := [] }
+    ({ (tars2endpoint f) with proto := if f.istcp = 1 then sTcp else sUdp } : Endpoint).string ≠ keyOfRegistry f := by
+  intro f h
+  have := congrArg List.head? h
+  simp [f, keyOfRegistry, tars2endpoint, Endpoint.string, sUdp, sTcp] at this
+
+/-- tie to the current tree: in tars/endpointmanager.go and tars/application.go every key used
+    with the manager's tables, or compared with an Endpoint's `Key`, is the `Key`/`String()` of an
+    Endpoint made by `endpoint.Parse` / `endpoint.Tars2endpoint` or a key taken out of a table
+    (extractor rule "key sites" of extract/c18.go; this theorem no longer builds when a site
+    formats a key itself) -/
+theorem C18_key_sites_current_tree : Consts.epKeySitesCanonical = 1 := by decide
+
 /-! ## Clause 5: no string makes the parser crash -/
 
 /-- with the guard (pending/C18-parse-guard.patch) `Parse` returns for **every** byte string -/
